@@ -98,6 +98,45 @@ def payloads(rng, tier):
         yield "decode", {"rows": rows, "v0": v0, "s": s, "L": L, "faster": faster, "vt": vk, "table": table,
                          "w": w, "tags": [g, sk, vk, tk], "reuse": rng.random() < 0.5,
                          "vtn": rng.choice([None, None, 1, 2, 8, 16, 31, 32, 33, 34, 40, 64, 70])}
+    for item in long_payloads(rng, tier):
+        yield item
+
+
+def long_payloads(rng, tier):
+    """LONG strands (an implementation may switch to another code path beyond some length) on graphs with individually removed
+    arcs: a genuine walk, and the same strand with ONE step replaced, at an early position, by a nucleotide whose arc is missing
+    while the vertex it would lead to is alive -- followed by a genuine walk from there, so that nothing later gives the error away"""
+    for _ in range({"quick": 12, "thorough": 120, "search": 8}[tier]):
+        k = rng.randint(1, 3)
+        n4 = 4 ** k
+        rows = [list(r) for r in gen.arc_subset(rng, k, keep=rng.choice([0.7, 0.8, 0.9]))]
+        for r in rows:          # fast mode (the only mode that is quick enough on strands this long) knows out-degrees 1, 2 and 4
+            alive = [j for j in range(4) if r[j] >= 0]
+            if len(alive) == 3:
+                r[rng.choice(alive)] = -1
+        live = gen.live_vertices(rows)
+        if not live:
+            continue
+        v0 = rng.choice(live)
+        total = rng.choice([16384, 20000, 33000])
+        pos = rng.choice([0, 1, k - 1, k, k + 1, k + 2, 2 * k + 1, 100])
+        head = gen.random_walk(rng, rows, v0, pos)
+        if len(head) != pos:
+            continue
+        u = v0
+        for c in head:
+            u = rows[u][NUC.index(c)]
+        dead = [j for j in range(4) if rows[u][j] < 0 and any(x >= 0 for x in rows[(4 * u + j) % n4])]
+        if not dead:
+            continue
+        j = rng.choice(dead)
+        tail = gen.random_walk(rng, rows, (4 * u + j) % n4, total - pos - 1)
+        good = gen.random_walk(rng, rows, v0, total)
+        faster = True
+        for s in (head + NUC[j] + tail, good):
+            cb = carried(rows, v0, s)
+            yield "decode", {"rows": rows, "v0": v0, "s": s, "L": max(cb, 1) + rng.choice([0, 0, 3]), "faster": faster, "vt": "none",
+                             "table": None, "w": good, "tags": ["subset", "long", "none", "none"], "reuse": False, "vtn": None}
 
 
 def build(stream, p):
@@ -117,6 +156,8 @@ def build(stream, p):
         else:
             vt = formula(base, p.get("vtn") or 3) + "A"
     call = enc_call(21, s2c(s), L, gen.enc_acc(rows), v0, int(faster), gen.enc_opt_str(vt), gen.enc_table(table))
+    if len(s) > 6000:
+        call = None          # the extracted model is too slow on strands this long: they are judged by the oracle only
     tab = None if table is None else np.array(table, dtype=int)
 
     def run():
